@@ -5,6 +5,7 @@
 -/
 import Edn.Proofs.ReaderBasic
 import Edn.Proofs.Fuel
+import Edn.Proofs.TriviaAux1
 
 namespace Edn.Proofs
 open Edn.Model
@@ -15,16 +16,72 @@ inductive PlainTrivia : Bytes → Prop
   | ws (c : UInt8) (t : Bytes) (hw : isWs c = true) : PlainTrivia t → PlainTrivia (c :: t)
   | comment (body t : Bytes) (hb : ∀ b ∈ body, b ≠ 0x0A) : PlainTrivia t → PlainTrivia (0x3B :: (body ++ 0x0A :: t))
 
+def wsNotSemi (c : UInt8) : Bool := !isWs c || !(c == 0x3B)
+theorem isWs_not_semi : ∀ c, wsNotSemi c = true := forall_u8_bool _ (by decide +kernel)
+
+theorem skipWsScalarAux_body (body r : Bytes) (hb : ∀ b ∈ body, b ≠ 0x0A) :
+    skipWsScalarAux true (body ++ 0x0A :: r) = skipWsScalarAux false r := by
+  induction body with
+  | nil => simp [skipWsScalarAux]
+  | cons b bs ih =>
+    have hne : (b == 0x0A) = false := by
+      have := hb b (by simp)
+      simpa using this
+    rw [List.cons_append, skipWsScalarAux]
+    simp only [hne, Bool.false_eq_true, ↓reduceIte]
+    exact ih (fun x hx => hb x (by simp [hx]))
+
+theorem skipWsScalarAux_trivia (tr s : Bytes) (h : PlainTrivia tr) :
+    skipWsScalarAux false (tr ++ s) = skipWsScalarAux false s := by
+  induction h with
+  | nil => rfl
+  | ws c t hw _ ih =>
+    have hs : (c == 0x3B) = false := by
+      have := isWs_not_semi c
+      simpa [wsNotSemi, hw] using this
+    rw [List.cons_append, skipWsScalarAux_false_cons]
+    simp only [hs, hw, Bool.false_eq_true, ↓reduceIte]
+    exact ih
+  | comment body t hb _ ih =>
+    rw [List.cons_append, skipWsScalarAux_false_cons]
+    simp only [beq_self_eq_true, ↓reduceIte]
+    rw [List.append_assoc, List.cons_append, skipWsScalarAux_body _ _ hb]
+    exact ih
+
 /-- the whitespace skipper runs through plain trivia -/
 theorem skipWs_trivia (tr s : Bytes) (h : PlainTrivia tr) : skipWs (tr ++ s) = skipWs s := by
-  sorry
+  rw [skipWs_eq, skipWs_eq]
+  exact skipWsScalarAux_trivia tr s h
+
+theorem PlainTrivia.head_preWs {c : UInt8} {t : Bytes} (h : PlainTrivia (c :: t)) : isPreWs c = true := by
+  rw [isPreWs_iff]
+  cases h with
+  | ws _ _ hw _ => simp [hw]
+  | comment body t' hb _ => simp
 
 /-- plain trivia in front of a form does not change what `edn_read_value` returns (positions
     are relative to the end of the input, so they are literally unchanged) -/
 theorem readValue_trivia_prefix (ctx : Ctx) (f d : Nat) (dm : Bool) (tr s : Bytes) (cl : List Call)
     (h : PlainTrivia tr) :
     readValue ctx (f + 1) d dm { rest := tr ++ s, calls := cl } = readValue ctx (f + 1) d dm { rest := s, calls := cl } := by
-  sorry
+  cases tr with
+  | nil => simp
+  | cons c0 t0 =>
+    have hp := h.head_preWs
+    have h1 := skipWs_trivia _ s h
+    rw [readValue_succ, readValue_succ]
+    unfold rvOuter
+    simp only [List.cons_append] at h1 ⊢
+    simp only [hp, ↓reduceIte]
+    rw [h1]
+    cases s with
+    | nil => simp [skipWs, skipWsSimd, eofErrOf]
+    | cons c1 t1 =>
+      simp only
+      by_cases hq : isPreWs c1 = true
+      · simp only [hq, ↓reduceIte]
+      · simp only [hq, Bool.false_eq_true, ↓reduceIte]
+        rw [skipWs_nonws c1 t1 (by simpa using hq)]
 
 /-- in discard mode no handler is invoked: the call log is unchanged by all six reader
     functions, whatever they read and whether they succeed or fail -/
@@ -34,8 +91,8 @@ theorem discard_mode_no_calls (ctx : Ctx) : ∀ (f : Nat),
     (∀ d start ns st ks vs, (readMap ctx f d true start ns st ks vs).st.calls = st.calls) ∧
     (∀ d start st, (readNsMap ctx f d true start st).st.calls = st.calls) ∧
     (∀ d start st, (readTagged ctx f d true start st).st.calls = st.calls) ∧
-    (∀ d start st, (readMeta ctx f d true start st).st.calls = st.calls) := by
-  sorry
+    (∀ d start st, (readMeta ctx f d true start st).st.calls = st.calls) :=
+  reader_discard_calls ctx
 
 /-- a discarded well-formed form is trivia: if the bytes `form` read (in discard mode, one
     level deeper) as some value and leave `s`, then `#_ form` in front of `s` is skipped and
@@ -46,7 +103,43 @@ theorem discard_is_trivia (ctx : Ctx) (f d : Nat) (dm : Bool) (form s : Bytes) (
     cl' = cl ∧
     readValue ctx (f + 1) d dm { rest := 0x23 :: 0x5F :: (form ++ s), calls := cl }
       = readValue ctx f d dm { rest := s, calls := cl } := by
-  sorry
+  have hcl : cl' = cl := by
+    have := (discard_mode_no_calls ctx f).1 (d + 1) { rest := form ++ s, calls := cl }
+    rw [hform] at this
+    exact this
+  subst hcl
+  refine ⟨rfl, ?_⟩
+  have hdisp : dispatch ctx.cfg 0x23 = .hash := by
+    obtain ⟨clj, exp⟩ := ctx.cfg
+    cases clj <;> cases exp <;> decide +kernel
+  have hp : isPreWs 0x23 = false := by decide +kernel
+  have hnd : ¬ (d ≥ Edn.Generated.Tables.maxNestingDepth) := by omega
+  rw [readValue_succ]
+  unfold rvOuter
+  simp only [hp, Bool.false_eq_true, ↓reduceIte]
+  unfold rvStep
+  simp only [hdisp]
+  simp only [hnd, decide_false, Bool.false_eq_true, ↓reduceIte]
+  have e1 : ((0x5F : UInt8) == 0x23) = false := by decide
+  have e2 : ((0x5F : UInt8) == 0x7B) = false := by decide
+  simp only [e1, e2, Bool.false_eq_true, ↓reduceIte, beq_self_eq_true]
+  rw [hform]
+
+theorem readValue_trivia_only (ctx : Ctx) (f d : Nat) (dm : Bool) (s : Bytes) (cl : List Call)
+    (h : skipWsScalar s = []) :
+    readValue ctx (f + 1) d dm { rest := s, calls := cl } = eofErrOf d { rest := [], calls := cl } := by
+  rw [readValue_succ]
+  unfold rvOuter
+  cases s with
+  | nil => rfl
+  | cons c t =>
+    simp only
+    by_cases hp : isPreWs c = true
+    · simp only [hp, ↓reduceIte]
+      rw [skipWs_eq, h]
+    · have := skipWs_nonws c t (by simpa using hp)
+      rw [skipWs_eq, h] at this
+      cases this
 
 /-- input that the whitespace skipper consumes entirely reads as end of input: the
     end-of-input error at the end of the input, or exactly the caller's end-of-input value -/
@@ -56,6 +149,14 @@ theorem read_trivia_only (cfg : Cfg) (opts : Opts) (s : Bytes) (h : skipWsScalar
     | .eofValue => opts.eofValue = true
     | .error code es ee => opts.eofValue = false ∧ code = .unexpectedEof ∧ es.offset = s.length ∧ ee.offset = s.length
     | _ => False := by
-  sorry
+  unfold Edn.Model.read
+  simp only []
+  have hf : readFuel s = (4 * s.length + 7) + 1 := rfl
+  rw [hf, readValue_trivia_only _ _ _ _ _ _ h]
+  simp only [eofErrOf]
+  have hee : (Err.unexpectedEof == Err.unexpectedEof) = true := by decide
+  cases he : opts.eofValue with
+  | true => simp [hee]
+  | false => simp
 
 end Edn.Proofs
